@@ -5,7 +5,7 @@
 set -u
 tier=$1; seed=$2; shift 2
 props=${*:-C01 C02 C03 C04 C05 C06 C07 C08 C09 C10 C11 C12 C13 C14 C15 C16 C17 C18 C19 C20}
-WT=/tmp/wt_sweep; RP=/tmp/repo_sweep
+WT=/tmp/wt_sweep${SWEEPTAG:-}; RP=/tmp/repo_sweep${SWEEPTAG:-}
 if [ ! -d $WT ]; then git -C /verif worktree add -f --detach $WT HEAD >/dev/null 2>&1; fi
 git -C $WT checkout -q -f --detach $(git -C /verif rev-parse HEAD)
 rm -rf $RP; git clone -q /repo $RP
